@@ -516,6 +516,9 @@ def step (ss : Slots) (line : String) : String × Slots :=
       | _, .src .. => ("unsupported", ss)
       | a, v => if a.sameKind v then ("ok", setSlot ss d v) else ("unsupported", ss)
     | _, _ => ("bad-op", ss)
+  | ["race", _, _, _, _] =>
+    -- shared-scratch detector of the harness (real code only): in the model instances share nothing by construction
+    ("ok", ss)
   | ["rth", d, s] =>
     -- round trip through a human-readable serde format: the restored generator is the original (as for `rt`)
     match d.toNat?, s.toNat? with
